@@ -42,6 +42,7 @@ def run(ctx, rep):
     run_dep(ctx, rep, "C15")
     run_loneabs(ctx, rep)
     whole_sign(rep, ctx.prog("Q"))
+    comma_ws(rep, ctx.prog("Q"))
     prog = ctx.prog("Q")
     rep.notes.append("Does not decide numeric round trips, fraction carry or option interactions.")
     rep.rule("LABEL-TABLE", "for each of the 7 designator arrays D of the friendly printer and each unit index i, first-match evaluation of "
@@ -153,3 +154,80 @@ def whole_sign(rep, prog, rule="WHOLE-SIGN"):
                     rep.violation(rule, key, "the sign handed to the writer is %s, not signum() of the function's own span/duration"
                                   % show(sg, maxd=4)[:120], loc)
     rep.floor(rule + " writers", n, 3)
+
+
+def comma_ws(rep, prog, rule="COMMA-WS"):
+    """the friendly grammar is `comma = "," whitespace`; the printer must never put a non-blank right after a comma"""
+    from ..guards import guards, strip_not
+    from ..term import alts, is_call
+    rep.rule(rule, "in the friendly printer, whatever is written next after a `,` starts with ASCII whitespace on every path and for "
+                   "every spacing setting (the strings returned by Spacing::between_units are resolved to their constants; a branch "
+                   "on is_empty() of the string excludes the empty alternative): the parser requires whitespace after a comma, so "
+                   "`1y,2mo` is printed text the parser rejects")
+    n = 0
+    for f in sorted(prog.fns.values(), key=lambda f: f.key):
+        if f.crate != "jiff" or "fmt::friendly::printer" not in f.path:
+            continue
+        writes = [(bi, t) for bi, t in mir.iter_calls(f) if t.get("path", "").endswith("Write::write_str") or t.get("path", "").endswith("::write_str")]
+        if not writes:
+            continue
+        T = Terms(f)
+        cfg = mir.CFG(f)
+        wblocks = {bi for bi, _ in writes}
+        for (bc, tc) in writes:
+            if T.at_call(bc, tc, 1) != ("const", ","):
+                continue
+            n += 1
+            key = "%s comma#%d" % (f.path.split("::")[-1], n)
+            loc = "%s:%s" % (tc["span"]["file"], tc["span"]["line"])
+            # next writes reachable without passing another write, with the branch conditions taken on the way
+            nxt, seen = [], set()
+            stack = [(s_, ()) for s_ in cfg.succ[bc]]
+            while stack:
+                b, conds = stack.pop()
+                if (b, conds) in seen or len(seen) > 400:
+                    continue
+                seen.add((b, conds))
+                if b in wblocks:
+                    nxt.append((b, conds))
+                    continue
+                tb = f.blocks[b]["term"]
+                if tb["t"] == "switch" and tb.get("op_ty") == "bool":
+                    c = T.operand(tb["op"], 0, (b, "term"))
+                    for v, tg in list(zip(tb["vals"], tb["targets"])) + [(None, tb["otherwise"])]:
+                        truth = bool(v) if v is not None else (not bool(tb["vals"][0]) if len(tb["vals"]) == 1 else None)
+                        c2, tr2 = strip_not(c, truth) if truth is not None else (c, None)
+                        stack.append((tg, conds + ((c2, tr2),)))
+                else:
+                    stack += [(s_, conds) for s_ in cfg.succ[b]]
+            bad = None
+            if not nxt:
+                bad = "nothing is written after the comma in this function (the caller's next write is not checked)"
+            for (b, conds) in nxt:
+                t = f.blocks[b]["term"]
+                arg = T.at_call(b, t, 1)
+                vals = set()
+                for a in alts(arg):
+                    if a[0] == "const" and isinstance(a[1], str):
+                        vals.add(a[1])
+                    elif a[0] == "call" and ("jiff::" + a[1]) in prog.fns:
+                        for r in alts(Terms(prog.fns["jiff::" + a[1]]).returns()):
+                            if r[0] == "const" and isinstance(r[1], str):
+                                vals.add(r[1])
+                            else:
+                                vals.add(None)
+                    else:
+                        vals.add(None)
+                for (c2, tr2) in conds:
+                    if is_call(c2, "::is_empty") and c2[2] and c2[2][0] == arg and tr2 is False:
+                        vals.discard("")
+                if None in vals:
+                    bad = "the text written after the comma at line %s is not a known constant" % t["span"]["line"]
+                elif any(not v or v[0] not in " \t\n\r" for v in vals):
+                    bad = "after the comma the printer can write %s (line %s), which does not start with whitespace" % (
+                        sorted(repr(v) for v in vals), t["span"]["line"])
+            if bad:
+                rep.violation(rule, key, bad, loc)
+            else:
+                rep.ok(rule, key, how="every following write starts with whitespace", loc=loc)
+    rep.floor(rule + " commas", n, 1)
